@@ -40,7 +40,11 @@ class LocalToField:
         return new_name
 
     def _is_a_method_local(self, pyname):
+        if pyname is None:
+            return False
         pymodule, lineno = pyname.get_definition_location()
+        if pymodule is None or lineno is None:
+            return False
         holding_scope = pymodule.get_scope().get_inner_scope_for_line(lineno)
         parent = holding_scope.parent
         return (
